@@ -6,6 +6,7 @@ from ..engines.ranges import strip_widen
 from ..facts import CheckError
 from ..progs import programs
 from ..sym import Sym, fmt, atoms
+from .. import ir
 
 SCRATCH = "resizer::get_temp_image_from_buffer"
 
@@ -493,6 +494,109 @@ def state_fields(rep, prog, rule):
                     "that rebuilds it was recognised" % ty)
 
 
+def backend_writes(rep, prog, rule):
+    rep.rule(rule, "the selected back-end lives in two fields of Resizer (cpu_extensions, and a copy "
+             "inside mul_div); a function that holds `&mut Resizer` either leaves both alone or sets "
+             "both from one value (set_cpu_extensions). A function that replaces the whole Resizer "
+             "(`*self = Resizer { cpu_extensions: self.cpu_extensions, ..Default::default() }`) or one "
+             "of the two fields makes premultiplication / division run on another back-end than the "
+             "convolution after that call: the result of a resize depends on whether e.g. "
+             "reset_internal_buffers was called before")
+    adt = prog.adt_ids("Resizer")
+    adt = [a for a in adt if a.endswith("resizer::Resizer")] or adt
+    if len(adt) != 1:
+        rep.unk(rule, "Resizer|fields", "", "struct Resizer not found")
+        return
+    fields = prog.adts[adt[0]]["variants"][0]["fields"]
+    config = [i for i, fl in enumerate(fields) if str(fl[1]) != "std::vec::Vec<u8>"]
+    cname = {i: fields[i][0] for i in config}
+    n = 0
+    for f in sorted(prog.fns.values(), key=lambda x: x.id):
+        if f.kind == "closure":
+            continue
+        pis = [i for i in range(1, f.arg_count + 1)
+               if re.match(r"^&mut ([a-z_0-9]+::)*Resizer$", f.local_ty(i) or "")]
+        if not pis:
+            continue
+        pi = pis[0]
+        n += 1
+        rep.touch(f)
+        sym = Sym(f)
+        writes = {}           # field index -> [(where, expr)]
+        whole = []
+        for b, blk in enumerate(f.blocks):
+            if blk["c"]:
+                continue
+            for j, st in enumerate(blk["s"]):
+                if st[0] != "a":
+                    continue
+                pl = st[1]
+                if pl[:2] == [pi, "*"]:
+                    if len(pl) == 2:
+                        whole.append((b, j, st))
+                    elif isinstance(pl[2], list) and pl[2][0] == "f" and pl[2][1] in config:
+                        writes.setdefault(pl[2][1], []).append((st[3], sym.rvalue(st[2], b, (b, j))))
+                elif st[2][0] == "ref" and st[2][1] in ("mut", "two_phase"):
+                    rp = st[2][2]
+                    if rp[:2] == [pi, "*"] and len(rp) >= 3 and isinstance(rp[2], list) \
+                            and rp[2][0] == "f" and rp[2][1] in config:
+                        # `&mut self.mul_div`: what is done through it
+                        for c in f.calls():
+                            if c.args and ir.op_place(c.args[0]) == [st[1][0]] or \
+                                    (c.args and fmt(sym.operand(c.args[0], (c.bb, "term"))).startswith("&mut")
+                                     and cname[rp[2][1]] in fmt(sym.operand(c.args[0], (c.bb, "term")))):
+                                vals = [sym.operand(a, (c.bb, "term")) for a in c.args[1:]]
+                                writes.setdefault(rp[2][1], []).append((c.at, ("call", c.method, tuple(vals))))
+                                break
+                        else:
+                            writes.setdefault(rp[2][1], []).append((st[3], ("unknown-mut",)))
+        key = f.name
+        for (b, j, st) in whole:
+            rv = st[2]
+            e = sym.rvalue(rv, b, (b, j))
+            ops = None
+            if rv[0] == "agg" and rv[1] == "adt" and rv[2] == adt[0]:
+                ops = [sym.operand(o, (b, j)) for o in rv[4]]
+            elif isinstance(e, tuple) and e and e[0] == "agg" and len(e) > 4 and e[2] == adt[0]:
+                ops = list(e[4])
+            if ops is None:
+                rep.bad(rule, key + "|replaced", st[3], "%s assigns a whole new Resizer (%s) to *self: the "
+                        "selected back-end (cpu_extensions and the copy inside mul_div) is not carried "
+                        "over" % (f.name, fmt(e)[:80]))
+                continue
+            for i in config:
+                s_ = fmt(ops[i]) if i < len(ops) else "?"
+                if re.search(r"\bself\)?\.%s\b" % re.escape(cname[i]), s_) or \
+                        re.search(r"\(\*self\)\.%s\b" % re.escape(cname[i]), s_):
+                    rep.ok(rule, "%s|replaced|%s" % (key, cname[i]), st[3], "%s <- %s" % (cname[i], s_[:60]))
+                else:
+                    rep.bad(rule, "%s|replaced|%s" % (key, cname[i]), st[3],
+                            "%s replaces *self and builds the field %s from %s, not from self.%s: the "
+                            "back-end selected with set_cpu_extensions is lost for that part (mul_div "
+                            "keeps its own copy of the CPU extensions), so a resize after this call "
+                            "premultiplies / divides on another back-end than it convolves" % (
+                                f.name, cname[i], s_[:80], cname[i]))
+        if not writes and not whole:
+            rep.ok(rule, key + "|untouched", f.loc, "neither back-end field is written")
+            continue
+        if writes:
+            missing = [cname[i] for i in config if i not in writes]
+            srcs = set()
+            for i, ws in writes.items():
+                for (at, e) in ws:
+                    srcs |= {a for a in atoms(e) if a[0] == "param" and a[1] != pi}
+            if missing:
+                rep.bad(rule, key + "|partial", f.loc, "%s writes %s but not %s: the two copies of the "
+                        "selected back-end disagree afterwards" % (
+                            f.name, ", ".join(cname[i] for i in writes), ", ".join(missing)))
+            elif len(srcs) == 1:
+                rep.ok(rule, key + "|both", f.loc, "all of %s are set from `%s`" % (
+                    ", ".join(cname[i] for i in config), list(srcs)[0][2]))
+            else:
+                rep.unk(rule, key + "|both", f.loc, "back-end fields are written from %d values" % len(srcs))
+    rep.floor(rule, "functions that hold &mut Resizer", n, 6)
+
+
 def run(rep, tier):
     cfgs = ["x86"] if tier == "quick" else ["x86", "x86-rayon", "arm", "wasm"]
     for cfg, prog in programs(cfgs):
@@ -502,5 +606,6 @@ def run(rep, tier):
         rep.call(sizing, rep, prog, "C09.sizing")
         rep.call(state_independence, rep, prog, "C09.state-independence")
         rep.call(clone_config, rep, prog, "C09.clone-config")
+        rep.call(backend_writes, rep, prog, "C09.backend-writes")
         rep.call(state_fields, rep, prog, "C09.state-fields")
         rep.call(index_rules.scratch_grow, rep, prog, "C09.scratch-grow")
